@@ -28,12 +28,7 @@ import (
 	"encoding/base64"
 	"encoding/xml"
 	"fmt"
-	"go/ast"
-	"go/parser"
-	"go/token"
 	"hash"
-	"path/filepath"
-	"strconv"
 	"strings"
 
 	_ "golang.org/x/crypto/blake2b"
@@ -1007,98 +1002,3 @@ func Run(r *common.Run) error {
 }
 
 // ---- facts ------------------------------------------------------------------------------------
-
-// Facts regenerates lean/XmppModel/Generated/C20.lean from disco/info.go: the
-// fields compared by the sort of the identities and of the features, and how
-// many other sorts (struct slices / string slices) AppendHash performs.
-func Facts(repo string) (string, error) {
-	fset := token.NewFileSet()
-	f, err := parser.ParseFile(fset, filepath.Join(repo, "disco", "info.go"), nil, 0)
-	if err != nil {
-		return "", err
-	}
-	var fn *ast.FuncDecl
-	for _, d := range f.Decls {
-		if fd, ok := d.(*ast.FuncDecl); ok && fd.Name.Name == "AppendHash" && fd.Recv != nil {
-			fn = fd
-		}
-	}
-	strList := func(l []string) string {
-		q := make([]string, len(l))
-		for i, s := range l {
-			q[i] = strconv.Quote(s)
-		}
-		return "[" + strings.Join(q, ", ") + "]"
-	}
-	opt := func(ok bool, v string) string {
-		if ok {
-			return "some " + v
-		}
-		return "none"
-	}
-	var idKeys, featKeys []string
-	var haveId, haveFeat bool
-	structSorts, stringSorts := 0, 0
-	// keysOf lists, in order of first appearance, the struct fields compared with != or <
-	keysOf := func(lit *ast.FuncLit) []string {
-		var keys []string
-		seen := map[string]bool{}
-		ast.Inspect(lit.Body, func(n ast.Node) bool {
-			be, ok := n.(*ast.BinaryExpr)
-			if !ok || (be.Op != token.NEQ && be.Op != token.LSS) {
-				return true
-			}
-			for _, side := range []ast.Expr{be.X, be.Y} {
-				if se, ok := side.(*ast.SelectorExpr); ok && !seen[se.Sel.Name] {
-					seen[se.Sel.Name] = true
-					keys = append(keys, se.Sel.Name)
-				}
-			}
-			return true
-		})
-		return keys
-	}
-	if fn != nil {
-		ast.Inspect(fn.Body, func(n ast.Node) bool {
-			call, ok := n.(*ast.CallExpr)
-			if !ok {
-				return true
-			}
-			se, ok := call.Fun.(*ast.SelectorExpr)
-			if !ok {
-				return true
-			}
-			pkg, _ := se.X.(*ast.Ident)
-			if pkg == nil {
-				return true
-			}
-			switch {
-			case pkg.Name == "sort" && (se.Sel.Name == "Slice" || se.Sel.Name == "SliceStable") && len(call.Args) == 2:
-				lit, _ := call.Args[1].(*ast.FuncLit)
-				target := ""
-				if t, ok := call.Args[0].(*ast.SelectorExpr); ok {
-					target = t.Sel.Name
-				}
-				switch {
-				case lit != nil && target == "Identity":
-					idKeys, haveId = keysOf(lit), true
-				case lit != nil && target == "Features":
-					featKeys, haveFeat = keysOf(lit), true
-				default:
-					structSorts++
-				}
-			case pkg.Name == "sort" && se.Sel.Name == "Strings":
-				stringSorts++
-			}
-			return true
-		})
-	}
-	var sb strings.Builder
-	sb.WriteString("-- GENERATED by `harness facts C20` from disco/info.go (Info.AppendHash); do not edit.\n")
-	sb.WriteString("namespace XmppModel.Generated.C20\n\n")
-	fmt.Fprintf(&sb, "/-- struct fields compared, in order, by the `less` function sorting `i.Identity` -/\ndef identityKeys : Option (List String) := %s\n\n", opt(haveId, strList(idKeys)))
-	fmt.Fprintf(&sb, "/-- struct fields compared by the sort of `i.Features` -/\ndef featureKeys : Option (List String) := %s\n\n", opt(haveFeat, strList(featKeys)))
-	fmt.Fprintf(&sb, "/-- number of other `sort.Slice`/`sort.SliceStable` calls (the fields of a form, the forms) and of `sort.Strings` calls (the values of a field) in AppendHash -/\ndef structSorts : Option Nat := %s\ndef stringSorts : Option Nat := %s\n", opt(fn != nil, strconv.Itoa(structSorts)), opt(fn != nil, strconv.Itoa(stringSorts)))
-	sb.WriteString("\nend XmppModel.Generated.C20\n")
-	return sb.String(), nil
-}
